@@ -122,6 +122,8 @@ def seeded_main(argv):
             c = subprocess.run([os.path.join(VERIF, "check"), prop, "--tier", "quick"], env=env, capture_output=True, text=True)
             detail = [l.strip() for l in c.stdout.splitlines() if l.strip().startswith("oracle=")]
             okay = c.returncode == 1 and any(l.startswith("VIOLATION") for l in c.stdout.splitlines())
+            if meta.get("expected_reported") is False:
+                okay = c.returncode == 0     # kept for the record: judged outside the statement, must stay silent
             bad += not okay
             rows.append({"seed": name, "property": prop, "exit": c.returncode, "first": detail[0][:160] if detail else None})
             print("seed %-5s %-4s exit=%d %s  %s  (%.0fs)" % (name, prop, c.returncode, "ok" if okay else "NOT REPORTED",
